@@ -1,6 +1,7 @@
 import PyPhysim.Proofs.C05Runner
 import PyPhysim.Proofs.C05Grid
 import PyPhysim.Proofs.C05Params
+import PyPhysim.Proofs.C05Result
 
 /-!
 # C05 — the Monte Carlo runner runs exactly the requested repetitions per variation
@@ -526,7 +527,73 @@ theorem lookup_depends_only_on_content {X : Type} (s s' : PState) (hn : s.unpack
     s.lookup results fixed = s'.lookup results fixed :=
   lookup_sameContent s s' hn hn' hc results fixed
 
+/-! ## Every observable of a stored `Result` is the fold of the repetitions -/
+
+/-- **The accumulated value / total lists of a stored result hold the values of ALL
+    merged repetitions, in order** — for every result type (MISCTYPE included) as soon
+    as the first result accumulates; type and accumulate flag are those of the first. -/
+theorem merged_lists_are_concat (r : RVal) (rs : List RVal) (h : r.acc = true) :
+    (rs.foldl RVal.merge r).vlist = r.vlist ++ rs.flatMap (·.vlist) ∧
+    (rs.foldl RVal.merge r).tlist = r.tlist ++ rs.flatMap (·.tlist) ∧
+    (rs.foldl RVal.merge r).ty = r.ty ∧ (rs.foldl RVal.merge r).acc = true := by
+  obtain ⟨h1, h2⟩ := foldl_merge_lists_acc rs r h
+  obtain ⟨h3, h4⟩ := foldl_merge_ty_acc rs r
+  exact ⟨h1, h2, h3, by rw [h4, h]⟩
+
+/-- A result that does not accumulate keeps its (empty) lists whatever is merged. -/
+theorem merged_lists_untouched_without_accumulate (r : RVal) (rs : List RVal) (h : r.acc = false) :
+    (rs.foldl RVal.merge r).vlist = r.vlist ∧ (rs.foldl RVal.merge r).tlist = r.tlist :=
+  foldl_merge_lists_noacc rs r h
+
+/-- SUM / RATIO / CHOICE: value, total and `num_updates` of the stored result are the
+    sums over the merged repetitions. -/
+theorem merged_counts_are_sums (r : RVal) (rs : List RVal) (h : r.ty ≠ .misc) :
+    (rs.foldl RVal.merge r).n = r.n + (rs.map (·.n)).sum ∧
+    (rs.foldl RVal.merge r).value = r.value + (rs.map (·.value)).sum ∧
+    (rs.foldl RVal.merge r).total = r.total + (rs.map (·.total)).sum :=
+  foldl_merge_counts rs r h
+
+/-- MISC: value, total and `num_updates` are those of the LAST merged repetition. -/
+theorem merged_misc_is_last (r l : RVal) (rs : List RVal) (h : r.ty = .misc) :
+    ((rs ++ [l]).foldl RVal.merge r).value = l.value ∧ ((rs ++ [l]).foldl RVal.merge r).n = l.n ∧
+    ((rs ++ [l]).foldl RVal.merge r).total = l.total :=
+  foldl_merge_misc_last rs l r h
+
+/-- **Through the runner**: the result stored for a combination accumulates the values
+    of every successful repetition of that combination, in execution order, and of no
+    skipped one — the composition of `run_acc_is_merge` with the fold lemmas, for any
+    `rep_max`, stop rule, skip pattern and result type. -/
+theorem stored_result_accumulates_every_repetition (repMax : Nat) (keep : Keep RVal)
+    (outs : List (Outcome RVal)) (e : VarEnd RVal)
+    (h : runVariation RVal.merge repMax keep none outs = .done e) :
+    ∃ seg r rs, outs = seg ++ e.rest ∧ oks seg = r :: rs ∧
+      e.st.acc.ty = r.ty ∧ e.st.acc.acc = r.acc ∧
+      (r.acc = true → e.st.acc.vlist = (oks seg).flatMap (·.vlist) ∧
+                      e.st.acc.tlist = (oks seg).flatMap (·.tlist)) ∧
+      (r.acc = false → e.st.acc.vlist = r.vlist ∧ e.st.acc.tlist = r.tlist) := by
+  obtain ⟨seg, r, rs, h1, h2, h3, _⟩ := run_acc_is_merge RVal.merge repMax keep outs e h
+  refine ⟨seg, r, rs, h1, h2, ?_, ?_, ?_, ?_⟩
+  · rw [h3]; exact (foldl_merge_ty_acc rs r).1
+  · rw [h3]; exact (foldl_merge_ty_acc rs r).2
+  · intro ha
+    rw [h3, h2]
+    simpa using foldl_merge_lists_acc rs r ha
+  · intro ha
+    rw [h3]; exact foldl_merge_lists_noacc rs r ha
+
 /-! ## Non-vacuity: the hypotheses are satisfiable by non-trivial values -/
+
+/-- three repetitions of an accumulating MISCTYPE result (two updates each) and of an
+    accumulating RATIOTYPE result: lists of all repetitions, last value / summed value -/
+example :
+    let m (a : Int) := ((RVal.new .misc true).update a 0).update (a + 1) 0
+    let q (a : Int) := (RVal.new .ratio true).update a 8
+    (([m 4, m 9].foldl RVal.merge (m 1)).vlist, ([m 4, m 9].foldl RVal.merge (m 1)).value,
+     ([m 4, m 9].foldl RVal.merge (m 1)).n,
+     ([q 2, q 3].foldl RVal.merge (q 1)).vlist, ([q 2, q 3].foldl RVal.merge (q 1)).tlist,
+     ([q 2, q 3].foldl RVal.merge (q 1)).value, ([q 2, q 3].foldl RVal.merge (q 1)).n)
+    = ([1, 2, 4, 5, 9, 10], 10, 2, [1, 2, 3], [8, 8, 8], 6, 3) := by decide
+
 
 /-- two different histories with the same final content: one replaces the value list
     of `a` by a list of another length, removes and re-adds `b`, fails twice on the
